@@ -622,7 +622,7 @@ func c02Panics(w *World, r *Report, leaves map[*ssa.Function]bool) {
 						return
 					}
 					nP++
-					v := valueOnPath(rvI(ta.X, len(path)-1), path)
+					v := resolveOn(ta.X, len(path)-1, path)
 					mi, isMI := v.(*ssa.MakeInterface)
 					if !isMI || !types.Identical(mi.X.Type(), ta.AssertedType) {
 						okAll = false
